@@ -79,12 +79,20 @@ structure Sites where
   fieldNilFd : Bool
   foreachNilFd : Bool
   foreachInvalid : Bool
+  /-- path.go lit(): at a backslash the literal is empty and the iterator does not advance
+  (GetPath then loops forever under an "all" node); repaired: the backslash is consumed as a one-byte literal -/
+  litStall : Bool
+  /-- path.go GetPath does not unwrapDesc typedef'd descriptors (addPath does); repaired: it does -/
+  gpNoUnwrap : Bool
+  /-- mask.go Field/Int/Str, isAll branch, black list: answers `self.hasChild()`, so a final '*' rejects nothing;
+  repaired: answers `self.all != nil && self.all.hasChild()` -/
+  blackStar : Bool
   deriving DecidableEq, Repr
 
 /-- the tree this model was written against -/
-def Sites.asFound : Sites := ⟨true, true, true, true, true, true, true, true, true⟩
+def Sites.asFound : Sites := ⟨true, true, true, true, true, true, true, true, true, true, true, true⟩
 /-- every proposed repair applied -/
-def Sites.repaired : Sites := ⟨false, false, false, false, false, false, false, false, false⟩
+def Sites.repaired : Sites := ⟨false, false, false, false, false, false, false, false, false, false, false, false⟩
 
 /-! ## panic sites (one definition each) -/
 
@@ -352,6 +360,23 @@ def unquote (val : Bytes) : Option Bytes :=
   | _ :: r => if val.length < 2 then none else unquoteLoop (r.length + 1) r
   | [] => none
 
+/-- `Next()` at a '"': `str()` then the token constructor; `l` is the unread suffix, starting with the quote -/
+def nextStr (cfg : Sites) (l : Bytes) : Res (Tok × Bytes) :=
+  let n := strEnd l false 0
+  if n > l.length then siteStrSlice cfg
+  else match unquote (l.take n) with
+    | none => siteErrTok cfg
+    | some v => .ok (.str v, l.drop n)
+
+/-- `Next()` at any other byte `c` (`l = c :: r`): `lit()` then the token constructor -/
+def nextLit (cfg : Sites) (c : Nat) (r : Bytes) : Res (Tok × Bytes) :=
+  let (v, rest) := litSpan (c :: r)
+  if v.isEmpty && !cfg.litStall then .ok (.litStr [c], r)     -- repaired lit(): always makes progress
+  else if !v.isEmpty && v.all isDigit then do
+    let n ← siteAtoi cfg (decVal 0 v)
+    .ok (.litInt n, rest)
+  else .ok (.litStr v, rest)
+
 /-- `pathIterator.Next` on the unread suffix (`p.src[p.pos:]`); returns the token and the new suffix -/
 def next (cfg : Sites) : Bytes → Res (Tok × Bytes)
   | [] => .ok (.eof, [])
@@ -364,18 +389,8 @@ def next (cfg : Sites) : Bytes → Res (Tok × Bytes)
     else if c = 125 then .ok (.mapR, r)
     else if c = 44 then .ok (.elem, r)
     else if c = 42 then .ok (.any, r)
-    else if c = 34 then
-      let n := strEnd (c :: r) false 0
-      if n > (c :: r).length then siteStrSlice cfg
-      else match unquote ((c :: r).take n) with
-        | none => siteErrTok cfg
-        | some v => .ok (.str v, (c :: r).drop n)
-    else
-      let (v, rest) := litSpan (c :: r)
-      if !v.isEmpty && v.all isDigit then do
-        let n ← siteAtoi cfg (decVal 0 v)
-        .ok (.litInt n, rest)
-      else .ok (.litStr v, rest)
+    else if c = 34 then nextStr cfg (c :: r)
+    else nextLit cfg c r
 
 /-! ## the trie (mask.go FieldMask, storage.go) -/
 
@@ -672,10 +687,20 @@ inductive QStep
 
 /-- `(*fieldMap).Get` through `self.fdMask`, which may be nil -/
 def fdGet (cfg : Sites) (self : Mask) (id : Int) : Res MaskOpt :=
-  do
-    siteHead cfg id          -- the bounds check of head[f] comes before the load through the nil pointer
-    if !self.fdA then (if cfg.fieldNilFd then .panic .fieldNilFd else .ok .none)
-    else .ok (self.fd.getExist (.i id))
+  if !self.fdA then
+    -- as found: the bounds check of head[f] comes before the load through the nil pointer;
+    -- repaired: `if self == nil { return nil }` comes first
+    (if cfg.fieldNilFd then do siteHead cfg id; .panic .fieldNilFd else .ok .none)
+  else do
+    siteHead cfg id
+    .ok (self.fd.getExist (.i id))
+
+/-- black list, isAll branch of Field/Int/Str -/
+def Mask.passAll (m : Mask) (cfg : Sites) : Bool :=
+  if cfg.blackStar then m.hasChild
+  else match m.all with
+    | .some a => a.hasChild
+    | .none => false
 
 /-- Field / Int / Str on a possibly-nil receiver -/
 def query (cfg : Sites) (self : MaskOpt) (q : QStep) : Res (MaskOpt × Bool) :=
@@ -683,7 +708,7 @@ def query (cfg : Sites) (self : MaskOpt) (q : QStep) : Res (MaskOpt × Bool) :=
   | .none => .ok (.none, true)
   | .some m =>
     if m.typ = .invalid then .ok (.none, true)
-    else if m.isAll then .ok (m.all, !m.isBlack || m.hasChild)
+    else if m.isAll then .ok (m.all, !m.isBlack || m.passAll cfg)
     else match q with
       | .field id => do
         let fm ← fdGet cfg m id
@@ -769,6 +794,11 @@ def gpKeys (cfg : Sites) (cur : Mask) : Nat → Bytes → MaskOpt → Res (Optio
             if !ex then .ok none else gpKeys cfg cur f rest' fm
           | _ => .ok none
 
+/-- the descriptor GetPath continues with: as found the raw one, repaired `unwrapDesc` of it
+(a typedef cycle, on which Go would not return, is not modelled here: the raw descriptor is kept) -/
+def Schema.gpDesc (sch : Schema) (cfg : Sites) (t : Ty) : Ty :=
+  if cfg.gpNoUnwrap then t else (sch.unwrap t).getD t
+
 /-- GetPath: returns (mask, exist) -/
 def gpLoop (cfg : Sites) (sch : Schema) : Nat → MaskOpt → MaskOpt → Bytes → Ty → Res (MaskOpt × Bool)
   | 0, _, _, _, _ => .crash
@@ -798,7 +828,7 @@ def gpLoop (cfg : Sites) (sch : Schema) : Nat → MaskOpt → MaskOpt → Bytes 
               | .ok (tok, rest2) =>
                 let viaField (f : FieldD) : Res (MaskOpt × Bool) := do
                   let (fm, ex) ← query cfg cur (.field (int16wrap f.id))
-                  if !ex then no else gpLoop cfg sch fuel cur fm rest2 f.ty
+                  if !ex then no else gpLoop cfg sch fuel cur fm rest2 (sch.gpDesc cfg f.ty)
                 match tok with
                 | .litInt n =>
                   (match siteInt32 cfg n with
@@ -824,7 +854,7 @@ def gpLoop (cfg : Sites) (sch : Schema) : Nat → MaskOpt → MaskOpt → Bytes 
               if c.typ != .list then no else do
               match ← gpIndex cfg c fuel rest c.all with
               | none => no
-              | some (nxt, rest') => gpLoop cfg sch fuel cur nxt rest' e
+              | some (nxt, rest') => gpLoop cfg sch fuel cur nxt rest' (sch.gpDesc cfg e)
             | _ => no
           | .mapL =>
             match desc with
@@ -832,12 +862,12 @@ def gpLoop (cfg : Sites) (sch : Schema) : Nat → MaskOpt → MaskOpt → Bytes 
               if c.typ != .intMap && c.typ != .strMap && c.typ != .scalar then no else do
               match ← gpKeys cfg c fuel rest c.all with
               | none => no
-              | some (nxt, rest') => gpLoop cfg sch fuel cur nxt rest' v
+              | some (nxt, rest') => gpLoop cfg sch fuel cur nxt rest' (sch.gpDesc cfg v)
             | _ => no
           | _ => no
 
 def getPath (cfg : Sites) (sch : Schema) (m : MaskOpt) (desc : Ty) (path : Bytes) : Res (MaskOpt × Bool) :=
-  gpLoop cfg sch (path.length + 1) m m path desc
+  gpLoop cfg sch (path.length + 1) m m path (sch.gpDesc cfg desc)
 
 /-! ## JSON transport (serdes.go), as trees
 
